@@ -5,6 +5,7 @@ import (
 	"go/token"
 	"go/types"
 	"sort"
+	"strings"
 
 	"golang.org/x/tools/go/ssa"
 
@@ -456,6 +457,57 @@ func ruleR02e(h *H) {
 			continue
 		}
 		pred = fn
+		// table form: slices.Contains(<package-level slice of codes>, status.Code(err))
+		ir.Instrs(fn, func(in ssa.Instruction) {
+			c, ok := in.(*ssa.Call)
+			if !ok || len(c.Call.Args) != 2 || ir.Canon(c.Call.Args[1]) != code {
+				return
+			}
+			f := c.Call.StaticCallee()
+			if f == nil || !strings.HasPrefix(f.Name(), "Contains") {
+				return
+			}
+			u, isLoad := ir.Canon(c.Call.Args[0]).(*ssa.UnOp)
+			if !isLoad {
+				return
+			}
+			g, isGlobal := u.X.(*ssa.Global)
+			if !isGlobal {
+				return
+			}
+			for _, initFn := range h.P.Funcs {
+				if initFn.Pkg != g.Pkg || !strings.HasPrefix(initFn.Name(), "init") {
+					continue
+				}
+				ir.Instrs(initFn, func(x ssa.Instruction) {
+					st, isSt := x.(*ssa.Store)
+					if !isSt || st.Addr != ssa.Value(g) {
+						return
+					}
+					sl, isSl := st.Val.(*ssa.Slice)
+					if !isSl {
+						return
+					}
+					al, isAl := sl.X.(*ssa.Alloc)
+					if !isAl || al.Referrers() == nil {
+						return
+					}
+					for _, r := range *al.Referrers() {
+						ia, isIA := r.(*ssa.IndexAddr)
+						if !isIA || ia.Referrers() == nil {
+							continue
+						}
+						for _, rr := range *ia.Referrers() {
+							if es, isES := rr.(*ssa.Store); isES {
+								if k, isK := ir.Canon(es.Val).(*ssa.Const); isK && k.Value != nil {
+									retriable[k.Value.ExactString()] = true
+								}
+							}
+						}
+					}
+				})
+			}
+		})
 		for e, c := range ir.EdgeCmps(fn) {
 			_ = e
 			for _, cc := range []ir.Cmp{c, c.Flip()} {
